@@ -188,7 +188,55 @@ def task_autoref(t):
     return rep
 
 
-TASKS = dict(bdd=task_bdd, autoref=task_autoref)
+def task_wide(t):
+    """Functions of three variables embedded at every 3-subset of the levels of a manager with
+    10 declared variables; quantified sets drawn from the support and two other variables
+    (one between support levels when there is a gap, one below)."""
+    _, nvars, si, ns, focus = t
+    rep = run.Report()
+    rec = sweep.Rec(rep)
+    bdd, decl = sweep.wide_manager(nvars, env.SEED)
+    mine = sweep.shard(sweep.wide_subsets(nvars, 3), ns)[si]
+    for lv in mine:
+        names = tuple(decl[i] for i in lv)
+        others = [i for i in range(nvars) if i not in lv]
+        between = [i for i in others if lv[0] < i < lv[-1]]
+        ex = [decl[(between or others)[0]], decl[others[-1]]]
+        U = Universe(names + tuple(dict.fromkeys(ex)))
+        b = sweep.Builder(bdd, U)
+        qsets = list(sweep.subsets(U.names))
+        for fu in U.all_functions(names):
+            if focus is not None and [list(lv), fu] != list(focus):
+                continue
+            try:
+                u = b.verified(fu)
+            except Exception as e:  # noqa
+                rec('wide-build', 'raised %r' % (e,), dict(task=t[:-1] + ([list(lv), fu],)))
+                continue
+            for Q in qsets:
+                for fa in (False, True):
+                    case = dict(task=t[:-1] + ([list(lv), fu],), levels=list(lv), u=U.fmt(fu),
+                                Q=list(Q), forall=fa)
+                    try:
+                        r = bdd.quantify(u, set(Q), fa)
+                        rep.add('evaluations')
+                        if b.den(r) != U.quantify(fu, Q, fa):
+                            rec('wide:' + ('forall' if fa else 'exist'),
+                                'quantify denotes the wrong function in a wide manager', case)
+                        if set(Q) & U.support(fu):
+                            rep.add('nontrivial')
+                    except Violation as e:
+                        rec('wide-broken', e.what, case)
+                    except Exception as e:  # noqa
+                        rec('wide-exception:' + type(e).__name__, 'raised %r' % (e,), case)
+        bdd.collect_garbage()
+        b.reset()
+    if si == 0 and focus is None and mine:
+        rep.sample(dict(kind='wide manager', declared=nvars, support_levels=list(mine[len(mine) // 2])))
+    return rep
+
+
+TASKS = dict(bdd=task_bdd, autoref=task_autoref, wide=task_wide)
 
 
 def dispatch(t):
@@ -196,7 +244,7 @@ def dispatch(t):
 
 
 def plan(tier):
-    ts = []
+    ts = [('wide', 10, si, 16, None) for si in range(16)]
     if tier == 'quick':
         n = 3
         for oi in range(6):
